@@ -16,10 +16,6 @@ open QM
 section wseThms
 variable {K : Type} [Field K] [CharZero K] {m nv : Nat}
 
-/-- every weight matrix in force is symmetric (the constructor / setter validate `is_hermitian`) -/
-def SymWeights (l : List (Sched K m nv × Option (Mat K m m))) : Prop :=
-  ∀ p ∈ l, (wmat p.2)ᵀ = wmat p.2
-
 /-- C12 (value formula): when the weight lookup succeeds, `value(x) = Σ_j (p_j(x) − q_j)ᵀ W_j (p_j(x) − q_j)`
 with `p_j(x) = A_j x + b_j` and `W_j` the j-th weight matrix (identity when the loss has none). -/
 theorem wse_value_formula (ss : List (Sched K m nv)) (Ws : Option (List (Mat K m m))) (x : Vec K nv)
@@ -200,14 +196,6 @@ end symmHess
 /-! ## option wiring -/
 section wiringThms
 variable {K : Type} [Field K] [LinearOrder K] [IsStrictOrderedRing K] {m : Nat}
-
-/-- the weight matrices a mode string stands for: none (identity weights) for `identity`, the option's for
-`custom`, the symmetrised inverse-covariance matrices for the covariance modes -/
-def modeWeights (opt : Opt K m) (G : List (Mat K (m - 1) (m - 1))) : Option (List (Mat K m m)) :=
-  match opt.mode with
-  | .identity => none
-  | .custom => opt.weights
-  | .invSample | .invUnbiased | .unbiasedInv => some (G.map invCovWeight)
 
 theorem weightsByMode_eq (opt : Opt K m) (G : List (Mat K (m - 1) (m - 1))) :
     weightsByMode opt G = some (modeWeights opt G) := by
@@ -621,6 +609,43 @@ theorem relEntGrad_smul (epsq epsp c : K) (qs ps g : List K) :
       | cons a g =>
         simp only [List.map_cons, relEntGrad, ih ps g]
         split <;> ring
+theorem lincomb_length (n : Nat) (l : List (K × List K)) (h : ∀ x ∈ l, x.2.length = n) : (lincomb n l).length = n := by
+  induction l with
+  | nil => simp [lincomb]
+  | cons x r ih =>
+    obtain ⟨c, col⟩ := x
+    have := ih fun y hy => h y (List.mem_cons_of_mem _ hy)
+    have hc : col.length = n := h (c, col) (List.mem_cons_self ..)
+    simp [lincomb, this, hc]
+
+theorem relEntGrad_zero (epsq epsp : K) (qs ps : List K) (n : Nat) :
+    relEntGrad epsq epsp qs ps (List.replicate n 0) = 0 := by
+  induction qs generalizing ps n with
+  | nil => simp [relEntGrad]
+  | cons q qs ih =>
+    cases ps with
+    | nil => simp [relEntGrad]
+    | cons p ps =>
+      cases n with
+      | zero => simp [relEntGrad]
+      | succ n => simp [List.replicate_succ, relEntGrad, ih ps n]
+
+/-- C12 (⟨gradient, h⟩): the gradient kernel evaluated on the direction `d = Σ_α h_α·column_α` is `Σ_α h_α ·` (its value on column α) = ⟨gradient, h⟩ -/
+theorem relEntGrad_lincomb (epsq epsp : K) (qs ps : List K) (n : Nat) (l : List (K × List K))
+    (h : ∀ x ∈ l, x.2.length = n) :
+    relEntGrad epsq epsp qs ps (lincomb n l) = (l.map fun x => x.1 * relEntGrad epsq epsp qs ps x.2).sum := by
+  induction l with
+  | nil => simp [lincomb, relEntGrad_zero]
+  | cons x r ih =>
+    obtain ⟨c, col⟩ := x
+    have hr := fun y hy => h y (List.mem_cons_of_mem _ hy)
+    have hc : col.length = n := h (c, col) (List.mem_cons_self ..)
+    simp only [lincomb, List.map_cons, List.sum_cons]
+    rw [relEntGrad_add _ _ _ _ _ _ (by simp [hc, lincomb_length n r hr]), relEntGrad_smul, ih hr]
+
+-- `relEntGrad_lincomb`: two columns of length 2
+example : lincomb (K := Rat) 2 [(2, [1, 0]), (3, [0, 1])] = [2, 3] := by decide +kernel
+
 end linearityThms
 
 end entropyThms
@@ -749,25 +774,6 @@ end wreWeighted
 section deriv
 open Filter Topology
 
-/-- one outcome along a line: data `q`, probability `p`, gradient component `g = ∂_α p`, direction `d = (A h)_i` -/
-structure Pt where
-  q : ℝ
-  p : ℝ
-  g : ℝ
-  d : ℝ
-
-def qsOf (l : List Pt) : List ℝ := l.map (·.q)
-def psAt (l : List Pt) (t : ℝ) : List ℝ := l.map fun x => x.p + t * x.d
-def gsOf (l : List Pt) : List ℝ := l.map (·.g)
-def dsOf (l : List Pt) : List ℝ := l.map (·.d)
-/-- numpy's `log` values as the kernel receives them: `Real.log` of the clipped ratio -/
-noncomputable def logsAt (epsq epsp : ℝ) (l : List Pt) (t : ℝ) : List ℝ :=
-  l.map fun x => Real.log (logArg x.q (x.p + t * x.d) epsq epsp)
-
-/-- away from the clipping thresholds at parameter `t` -/
-def AwayAt (epsq epsp : ℝ) (l : List Pt) (t : ℝ) : Prop :=
-  ∀ x ∈ l, 0 < x.q ∧ epsq ≤ x.q ∧ 0 < x.p + t * x.d ∧ epsp < x.p + t * x.d ∧ epsp < x.q / (x.p + t * x.d)
-
 theorem roundVarz_of_lt {z eps : ℝ} (h : eps < z) : roundVarz z eps = z := by
   unfold roundVarz; rw [if_pos h]
 theorem roundVarz_of_le {z eps : ℝ} (h : eps ≤ z) : roundVarz z eps = z := by
@@ -879,10 +885,6 @@ theorem term_hasDerivAt (q p d : ℝ) (hq : 0 < q) (hp : 0 < p) :
   simp only [zero_mul, add_zero, zero_sub]
   field_simp
 
-/-- the model's relative-entropy kernel with `np.log = Real.log`, along the line `p(t) = p + t d` -/
-noncomputable def valueAt (epsq epsp : ℝ) (l : List Pt) (t : ℝ) : ℝ :=
-  relEnt epsq epsp (qsOf l) (psAt l t) (logsAt epsq epsp l t)
-
 /-- C12 (relative entropy, value = defining formula): away from the clipping thresholds (`q ≥ eps_q`, `p > eps_p`,
 `q/p > eps_p`) the model's kernel of `relative_entropy`, fed with `Real.log` of the clipped ratios as numpy's
 `log` values, is `Σ_i q_i log(q_i / p_i)`. -/
@@ -936,10 +938,6 @@ theorem wre_hessian_hasDerivAt (epsq epsp : ℝ) (l : List Pt) (h : AwayAt epsq 
     exact relEntGrad_tie epsq epsp l t ht
   have hD := hF.congr_of_eventuallyEq hEq
   exact hD.congr_deriv (relEntHess_tie epsq epsp l h).symm
-
-/-- one outcome's term of the model's `relative_entropy` kernel as a function of the predicted probability -/
-noncomputable def termAt (epsq epsp q : ℝ) (p : ℝ) : ℝ :=
-  relEnt epsq epsp [q] [p] [Real.log (logArg q p epsq epsp)]
 
 /-- C12 (clipping branches, region `q < eps_q`): the outcome is skipped — its contribution to value, gradient and
 Hessian is identically zero for every `p` (so the gradient is trivially the derivative there). -/
@@ -996,14 +994,6 @@ example : AwayAt (1/10) (1/10) [⟨1/2, 1/2, 1, 1⟩] 0 := by
   simp only [List.mem_singleton] at hx
   subst hx
   norm_num
-
-/-- every outcome is either skipped by the kernel (`q < eps_q`, e.g. an exactly-zero empirical entry) or away from
-all clipping thresholds -/
-def AwayOrSkipped (epsq epsp : ℝ) (l : List Pt) (t : ℝ) : Prop :=
-  ∀ x ∈ l, x.q < epsq ∨
-    (0 < x.q ∧ epsq ≤ x.q ∧ 0 < x.p + t * x.d ∧ epsp < x.p + t * x.d ∧ epsp < x.q / (x.p + t * x.d))
-
-noncomputable def kept (epsq : ℝ) (l : List Pt) : List Pt := l.filter fun x => decide (epsq ≤ x.q)
 
 theorem valueAt_kept (epsq epsp : ℝ) (l : List Pt) (t : ℝ) :
     valueAt epsq epsp l t = valueAt epsq epsp (kept epsq l) t := by
@@ -1117,6 +1107,51 @@ theorem wre_hessian_hasDerivAt_mixed (epsq epsp : ℝ) (l : List Pt) (h : AwayOr
   rw [hfun]
   exact this
 
+/-- C12 (weighted relative entropy, loss level): the model's weighted value is this sum — `wreSum (some w) (per-schedule kernel values)` -/
+theorem lossAt_eq_wreSum (epsq epsp : ℝ) (scheds : List (ℝ × List Pt)) (t : ℝ) (hne : scheds ≠ []) :
+    wreSum (some (scheds.map (·.1))) (scheds.map fun s => valueAt epsq epsp s.2 t) = .ok (lossAt epsq epsp scheds t) := by
+  cases scheds with
+  | nil => exact absurd rfl hne
+  | cons s r =>
+    simp only [wreSum, List.map_cons, List.length_cons, List.length_map, lt_irrefl, if_false, lossAt]
+    rw [lsum_eq_sum]
+    congr 1
+    simp only [List.zip_cons_cons, List.map_cons, List.sum_cons]
+    congr 1
+    induction r with
+    | nil => rfl
+    | cons a r ih => simp [ih]
+
+/-- C12 (weighted relative entropy, loss level): along every line the weighted loss value has as derivative the weighted sum of the
+model's per-schedule gradients (direction `d`), for data with zero entries, away from the clipping thresholds. -/
+theorem wre_loss_hasDerivAt (epsq epsp : ℝ) (scheds : List (ℝ × List Pt))
+    (h : ∀ s ∈ scheds, AwayOrSkipped epsq epsp s.2 0) :
+    HasDerivAt (lossAt epsq epsp scheds)
+      (scheds.map fun s => s.1 * relEntGrad epsq epsp (qsOf s.2) (psAt s.2 0) (dsOf s.2)).sum 0 := by
+  unfold lossAt
+  apply list_sum_hasDerivAt scheds (fun s t => s.1 * valueAt epsq epsp s.2 t)
+  intro s hs
+  exact (wre_gradient_hasDerivAt_mixed epsq epsp s.2 (h s hs)).const_mul s.1
+
+/-- C12 (weighted relative entropy, loss level): the weighted gradient component has the weighted Hessian entry as derivative. -/
+theorem wre_loss_grad_hasDerivAt (epsq epsp : ℝ) (scheds : List (ℝ × List Pt))
+    (h : ∀ s ∈ scheds, AwayOrSkipped epsq epsp s.2 0) :
+    HasDerivAt (fun t => (scheds.map fun s => s.1 * relEntGrad epsq epsp (qsOf s.2) (psAt s.2 t) (gsOf s.2)).sum)
+      (scheds.map fun s => s.1 * relEntHess epsq epsp (qsOf s.2) (psAt s.2 0) (gsOf s.2) (dsOf s.2)).sum 0 := by
+  apply list_sum_hasDerivAt scheds (fun s t => s.1 * relEntGrad epsq epsp (qsOf s.2) (psAt s.2 t) (gsOf s.2))
+  intro s hs
+  exact (wre_hessian_hasDerivAt_mixed epsq epsp s.2 (h s hs)).const_mul s.1
+
+
+-- loss-level derivative: two schedules with weights 2 and 0 (a switched-off schedule), one zero data entry
+example : ∀ s ∈ [((2 : ℝ), [(⟨0, 1/2, 1, 1⟩ : Pt), ⟨1/2, 1/2, 1, -1⟩]), (0, [⟨1/2, 1/2, 1, 1⟩])], AwayOrSkipped (1/10) (1/10) s.2 0 := by
+  intro s hs
+  simp only [List.mem_cons, List.not_mem_nil, or_false] at hs
+  rcases hs with rfl | rfl <;> intro x hx <;> simp only [List.mem_cons, List.not_mem_nil, or_false] at hx
+  · rcases hx with rfl | rfl
+    · left; norm_num
+    · right; norm_num
+  · subst hx; right; norm_num
 end deriv
 
 /-! ## concrete instances of the repaired wiring -/
